@@ -60,15 +60,20 @@ def main():
     U1 = UF['atan']((1 - f_) * UF['tan'](lat1.t * PI / 180))
     U2 = UF['atan']((1 - f_) * UF['tan'](lat2.t * PI / 180))
     Lsp = (lon2.t - lon1.t) * PI / 180
-    rd = LP['reads']
-    for nm, code, spec in (('U1', lift(rd['u1']), U1), ('U2', lift(rd['u2']), U2), ('L', lift(rd['omega']), Lsp), ('lambda0', lift(LP['entry']['lon']), Lsp)):
-        P.oblige('vincinv.' + nm, 'geodesy.vincinv', 'setup', E.prove_eq(code, spec, pre), code=code, spec=spec, hyps=pre)
-    lh = lift(LP['head']['lon'])
-    new, aux = V.inverse_step(U1, U2, lh, Lsp, f_, MSym)
-    for nm, code, spec in (('lambda_step', LP['post']['lon'], new), ('sigma', LP['post']['sigma'], aux['sigma']), ('alpha', LP['post']['alpha'], aux['alpha']),
-                           ('cos_two_sigma_m', LP['post']['cos_two_sigma_m'], aux['cos2sm'])):
-        P.oblige('vincinv.' + nm, 'geodesy.vincinv', 'loop body', E.prove_eq(lift(code), spec, pre), code=lift(code), spec=spec, hyps=pre,
-                 note='Vincenty 1975 inverse iteration with the f of the ellipsoid argument')
+    # one loop-body path per way of reaching the loop (exactly one on the unchanged tree); every path carries its own loop record
+    for bi, pb_ in enumerate(backs):
+        LPi = pb_['loops']['vincinv#for1']
+        sfx = '' if len(backs) == 1 else ' #%d' % (bi + 1)
+        hyb = pre + E.small(pb_['pc'])
+        rd = LPi['reads']
+        for nm, code, spec in (('U1', lift(rd['u1']), U1), ('U2', lift(rd['u2']), U2), ('L', lift(rd['omega']), Lsp), ('lambda0', lift(LPi['entry']['lon']), Lsp)):
+            P.oblige('vincinv.' + nm, 'geodesy.vincinv', 'setup' + sfx, E.prove_eq(code, spec, hyb), code=code, spec=spec, hyps=hyb)
+        lh = lift(LPi['head']['lon'])
+        new, aux = V.inverse_step(U1, U2, lh, Lsp, f_, MSym)
+        for nm, code, spec in (('lambda_step', LPi['post']['lon'], new), ('sigma', LPi['post']['sigma'], aux['sigma']), ('alpha', LPi['post']['alpha'], aux['alpha']),
+                               ('cos_two_sigma_m', LPi['post']['cos_two_sigma_m'], aux['cos2sm'])):
+            P.oblige('vincinv.' + nm, 'geodesy.vincinv', 'loop body' + sfx, E.prove_eq(lift(code), spec, hyb), code=lift(code), spec=spec, hyps=hyb,
+                     note='Vincenty 1975 inverse iteration with the f of the ellipsoid argument')
     # ---------------------------------------------------------------- exits
     for p in rets:
         if p in co:
@@ -76,8 +81,11 @@ def main():
         exh = is_exh(p)
         wrap = None
         tag = ('cap reached' if exh else 'converged')
+        LPp = p['loops']['vincinv#for1']
+        lh = lift(LPp['head']['lon'])
+        new, aux = V.inverse_step(U1, U2, lh, Lsp, f_, MSym)
         if exh:
-            lam, sig, alp, c2 = lh, lift(LP['head']['sigma']), lift(LP['head']['alpha']), lift(LP['head']['cos_two_sigma_m'])
+            lam, sig, alp, c2 = lh, lift(LPp['head']['sigma']), lift(LPp['head']['alpha']), lift(LPp['head']['cos_two_sigma_m'])
         else:
             lam, sig, alp, c2 = new, aux['sigma'], aux['alpha'], aux['cos2sm']
         s_sp, az1, az2 = V.inverse_finish(U1, U2, lam, sig, alp, c2, a_, b_, MSym)
